@@ -118,6 +118,8 @@ static const char *const kind_names[] = { "block", "pic", "sound", "void", "any"
 #define F_ORDER     0x0080   /* order preserving */
 #define F_SOURCE    0x0100   /* produces buffers of its own */
 #define F_NOSEQ     0x0200   /* output buffers are new urefs (no sequence number) */
+#define F_PTSMATCH  0x0800   /* the pipe picks the buffers of its inputs by date against a reference flow */
+#define F_PICSIZE   0x0400   /* pictures leave with the size the output definition announces (whole pictures, not chunks) */
 
 struct ctx;
 struct node;
@@ -160,6 +162,7 @@ struct node {
     struct upipe *upipe;
     int probe;
     bool held;
+    bool def_unconfirmed;   /* the current definition reached the pipe through the head pipe only */
     bool gone;              /* seen dead */
     int kind;               /* resolved input kind */
     int fmt;                /* picture / sound format of the input */
@@ -323,6 +326,13 @@ static void tap_input(struct upipe *upipe, struct uref *uref, struct upump **upu
             if (ubase_check(upipe_get_flow_def(n->upipe, &fd)) && fd != NULL && s->flow_def != NULL &&
                 fd->udict && s->flow_def->udict && udict_cmp(fd->udict, s->flow_def->udict))
                 FAILP(ORACLE_PROTO, "flowdef/stale", "output of %s: a buffer is delivered but the definition the output last accepted differs from the pipe's current output definition (get_flow_def)", node_name(c, n));
+        }
+        /* a picture of another size than the accepted definition announces belongs to another flow: its definition never arrived */
+        if (!c->ret && t->state == 1 && (n->sp->flags & F_PICSIZE) && s->flow_def != NULL && uref->ubuf != NULL) {
+            uint64_t dh = 0, dv = 0; size_t ph = 0, pv = 0;
+            if (ubase_check(uref_pic_flow_get_hsize(s->flow_def, &dh)) && ubase_check(uref_pic_flow_get_vsize(s->flow_def, &dv)) &&
+                dh != 0 && dv != 0 && ubase_check(uref_pic_size(uref, &ph, &pv, NULL)) && (ph != dh || pv != dv))   /* (crop to zero lines: no picture has that size) */
+                FAILP(ORACLE_PROTO, "flowdef/picture-size", "output of %s: a picture of %zux%zu is delivered under an accepted definition announcing %"PRIu64"x%"PRIu64, node_name(c, n), ph, pv, dh, dv);
         }
     }
     upipe_input(t->sink, uref, upump_p);
@@ -578,9 +588,18 @@ static struct ubuf_mgr *snd_mgr(struct ctx *c, int sf)
 static void stamp(struct ctx *c, struct node *n, struct uref *u, struct inspec *s, uint64_t dur)
 {
     uint64_t now = fake_upump_now(c->pfx.loop);
-    if (n->pts < now + TICK) n->pts = now + TICK + TICK / 4;
-    uint64_t pts = n->pts;
-    n->pts += dur ? dur : TICK;
+    uint64_t pts;
+    struct node *m = &c->n[N_MAIN];
+    if (n->sk >= 0 && m->sp && (m->sp->flags & F_PTSMATCH) && (s->sz & 0x20)) {
+        /* the inputs of a pipe that picks buffers by date (videocont, audiocont) are mostly dated like the next buffers of the
+         * reference flow, 0..3 periods ahead: otherwise nearly every buffer is too old when the reference arrives */
+        if (m->pts < now + TICK) m->pts = now + TICK + TICK / 4;
+        pts = m->pts + (s->sz >> 6) * (uint64_t)TICK;
+    } else {
+        if (n->pts < now + TICK) n->pts = now + TICK + TICK / 4;
+        pts = n->pts;
+        n->pts += dur ? dur : TICK;
+    }
     int d = s->fl & 15;
     if (d != 1 && d != 3) uref_clock_set_cr_sys(u, pts);
     if (d != 2 && d != 3) uref_clock_set_cr_prog(u, pts + 1000);
@@ -1444,22 +1463,22 @@ static const struct wtype table[] = {
     { upipe_play_mgr_alloc,           { "play", NULL, false, false, false, K_NONE, 0 }, 1,
                                       { { "play.sub", NULL, true, true, true, K_ANY, F_ONE2ONE | F_ORDER } } },
     { upipe_block_to_sound_mgr_alloc, { "block_to_sound", alloc_b2s, true, true, true, K_BLOCK, F_ONE2ONE | F_ORDER }, 0 },
-    { upipe_ntsc_prepend_mgr_alloc,   { "ntsc_prepend", NULL, true, true, true, K_PIC, F_ONE2ONE | F_ORDER, def_ntsc, in_ntsc }, 0 },
-    { upipe_crop_mgr_alloc,           { "crop", NULL, true, true, true, K_PIC, F_ORDER, NULL, NULL, ctl_crop }, 0 },
-    { upipe_separate_fields_mgr_alloc,{ "separate_fields", NULL, true, true, true, K_PIC, F_MULTI | F_ORDER }, 0 },
+    { upipe_ntsc_prepend_mgr_alloc,   { "ntsc_prepend", NULL, true, true, true, K_PIC, F_ONE2ONE | F_ORDER | F_PICSIZE, def_ntsc, in_ntsc }, 0 },
+    { upipe_crop_mgr_alloc,           { "crop", NULL, true, true, true, K_PIC, F_ORDER | F_PICSIZE, NULL, NULL, ctl_crop }, 0 },
+    { upipe_separate_fields_mgr_alloc,{ "separate_fields", NULL, true, true, true, K_PIC, F_MULTI | F_ORDER  | F_PICSIZE}, 0 },
     { upipe_row_split_mgr_alloc,      { "row_split", alloc_row_split, true, true, true, K_PIC, F_MULTI | F_ORDER }, 0 },
     { upipe_row_join_mgr_alloc,       { "row_join", NULL, true, true, true, K_PIC, F_HOLD | F_SELFHOLD | F_ATTRMIX, NULL, in_row_join }, 0 },
     { upipe_vblk_mgr_alloc,           { "video_blank", alloc_vblk, true, true, true, K_ANY, F_HOLD | F_SELFHOLD | F_ORDER, NULL, NULL, ctl_vblk, 0, KM(K_VOID) | KM(K_PIC) }, 0 },
     { upipe_ablk_mgr_alloc,           { "audio_blank", alloc_ablk, true, true, true, K_ANY, F_ORDER, def_ablk_in, NULL, ctl_ablk, 0, KM(K_VOID) | KM(K_SOUND) }, 0 },
-    { upipe_videocont_mgr_alloc,      { "videocont", NULL, true, true, true, K_PIC, F_ATTRMIX, NULL, NULL, ctl_videocont }, 1,
+    { upipe_videocont_mgr_alloc,      { "videocont", NULL, true, true, true, K_PIC, F_ATTRMIX | F_PICSIZE | F_PTSMATCH, NULL, NULL, ctl_videocont }, 1,
                                       { { "videocont.sub", NULL, true, false, false, K_PIC, F_HOLD, def_named_pic, NULL, ctl_videocont_sub } } },
-    { upipe_audiocont_mgr_alloc,      { "audiocont", alloc_audiocont, true, true, true, K_SOUND, F_ATTRMIX, NULL, NULL, ctl_audiocont }, 1,
+    { upipe_audiocont_mgr_alloc,      { "audiocont", alloc_audiocont, true, true, true, K_SOUND, F_ATTRMIX | F_PTSMATCH, NULL, NULL, ctl_audiocont }, 1,
                                       { { "audiocont.sub", NULL, true, false, false, K_SOUND, F_HOLD, def_named_sound, NULL, ctl_audiocont_sub } } },
-    { upipe_subpic_schedule_mgr_alloc,{ "subpic_schedule", NULL, true, true, true, K_PIC, F_ORDER }, 1,
+    { upipe_subpic_schedule_mgr_alloc,{ "subpic_schedule", NULL, true, true, true, K_PIC, F_ORDER  | F_PICSIZE}, 1,
                                       { { "subpic_schedule.sub", NULL, true, true, true, K_PIC, F_HOLD | F_MULTI } } },
-    { upipe_blit_mgr_alloc,           { "blit", NULL, true, true, true, K_PIC, F_HOLD | F_MULTI | F_PUMP, NULL, NULL, ctl_blit }, 1,
+    { upipe_blit_mgr_alloc,           { "blit", NULL, true, true, true, K_PIC, F_HOLD | F_MULTI | F_PUMP | F_PICSIZE, NULL, NULL, ctl_blit }, 1,
                                       { { "blit.sub", NULL, true, false, false, K_PIC, F_HOLD | F_NOSEQ, def_blit_sub, in_blit_sub, ctl_blit_sub } } },
-    { upipe_sync_mgr_alloc,           { "sync", NULL, true, true, true, K_PIC, F_HOLD | F_MULTI | F_PUMP | F_UCLOCK, NULL, NULL, ctl_attach }, 1,
+    { upipe_sync_mgr_alloc,           { "sync", NULL, true, true, true, K_PIC, F_HOLD | F_MULTI | F_PUMP | F_UCLOCK | F_PICSIZE, NULL, NULL, ctl_attach }, 1,
                                       { { "sync.sub", NULL, true, true, true, K_SOUND, F_HOLD | F_MULTI | F_NOSEQ } } },
     { upipe_audio_split_mgr_alloc,    { "audio_split", NULL, true, false, false, K_SOUND, 0 }, 1,
                                       { { "audio_split.sub", alloc_split_sub, false, true, true, K_NONE, F_MULTI } } },
@@ -1491,7 +1510,7 @@ static const struct wtype table[] = {
     { upipe_vancd_mgr_alloc,          { "vanc_decoder", NULL, true, true, true, K_BLOCK, F_MULTI, def_vanc, in_vanc }, 0 },
     { upipe_dtsdi_mgr_alloc,          { "dtsdi", NULL, true, true, true, K_BLOCK, F_HOLD | F_ORDER, NULL, in_dtsdi, ctl_dtsdi }, 0 },
     { upipe_s337_encaps_mgr_alloc,    { "s337_encaps", NULL, true, true, true, K_BLOCK, F_ONE2ONE | F_ORDER | F_SELFHOLD, def_s337 }, 0 },
-    { upipe_graph_mgr_alloc,          { "graph", NULL, true, true, true, K_PIC, F_ONE2ONE | F_ORDER, NULL, NULL, ctl_graph }, 1,
+    { upipe_graph_mgr_alloc,          { "graph", NULL, true, true, true, K_PIC, F_ONE2ONE | F_ORDER | F_PICSIZE, NULL, NULL, ctl_graph }, 1,
                                       { { "graph.sub", alloc_graph_sub, true, false, false, K_VOID, F_NOSEQ, def_graph_sub, in_graph_sub, ctl_graph_sub } } },    { NULL,                           { "auto_source", alloc_auto_src, false, true, true, K_NONE, F_SOURCE | F_PUMP, NULL, NULL, ctl_src_bin }, 0 },
     { NULL,                           { "sequential_source", alloc_seq_src, false, true, true, K_NONE, F_SOURCE | F_PUMP, NULL, NULL, ctl_src_bin }, 1,
                                       { { "sequential_source.peer", alloc_seq_src, false, true, true, K_NONE, F_SOURCE | F_PUMP, NULL, NULL, ctl_src_bin } } },
@@ -1737,12 +1756,19 @@ static bool do_set_flow_def(struct ctx *c, struct node *n, int v, const char *wh
     R("  %s -> %d%s\n", what, err, why);
     if (ubase_check(err)) {
         if (n->has_def && n->defv != v && n->fed) c->classes |= 1u << CL_FLOWDEF_CHANGE;
-        n->has_def = true; n->defv = v;
+        n->has_def = true; n->defv = v; n->def_unconfirmed = false;
         if (!strcmp(n->sp->name, "dtsdi")) n->vpos = 0;               /* the pipe expects a file header again */
         if (n->kind == K_PIC) { vsize(v, &n->w, &n->h); if (!strcmp(n->sp->name, "blit.sub")) { n->w = 16; n->h = 8; } }
     }
     end_op(c, what);
     return ubase_check(err);
+}
+
+static bool oob_flowdef_type(const char *name)
+{
+    static const char *const t[] = { "sync", "blit", NULL };
+    for (int i = 0; t[i]; i++) if (!strcmp(name, t[i])) return true;
+    return false;
 }
 
 static void op_set_flow_def(struct ctx *c)
@@ -1752,6 +1778,17 @@ static void op_set_flow_def(struct ctx *c)
     if (!n) return;
     if (v == 3 && n->sp->in_kind == K_ANY && !n->sp->kinds) v = 1;     /* nothing is invalid for a pipe that takes any flow */
     c->hash = vp_hash_mix(c->hash, 0x200 + n->idx * 8 + v);
+    /* named exclusion flowdef-change-out-of-band (open finding of C04, known_findings.json; the same defect as in the holding
+     * pipes of the `hold` executor): upipe_sync and upipe_blit store a new input definition at once while they still hold
+     * pictures of the previous flow, which then leave under (and after) the new definition. The generator does not change
+     * the picture size of such a pipe while it holds pictures. */
+    if (!(c->flags & VP_NO_EXCLUDE) && c->n[N_MAIN].sp && oob_flowdef_type(c->n[N_MAIN].sp->name) && (n->idx == N_MAIN || n->idx == N_HEAD) &&
+        n->has_def && n->kind == K_PIC && v < 3) {
+        int w, h; vsize(v, &w, &h);
+        bool holds = false;     /* (a picture given to the head pipe sits in the sync pipe as well) */
+        for (int i = 0; i < c->nlive; i++) { uint64_t q = pfx_uref_seq(c->live[i]); if (q < MAXSEQ && (c->seq_node[q] == N_MAIN || c->seq_node[q] == N_HEAD)) holds = true; }
+        if (holds && (w != n->w || h != n->h)) { c->excluded++; c->classes |= 1u << CL_EXCLUDED; R("  (set_flow_def(%s, v%d) left out: exclusion flowdef-change-out-of-band)\n", node_name(c, n), v); return; }
+    }
     do_set_flow_def(c, n, v, "");
 }
 
@@ -1764,6 +1801,13 @@ static void op_input(struct ctx *c)
     /* legal histories only: whoever feeds a pipe sends it a flow definition it accepts first (doc/rules) */
     if (!n->has_def) {
         if (!do_set_flow_def(c, n, 0, "   [implied before the first buffer]") || c->ret) return;
+    } else if (n->def_unconfirmed) {
+        /* the definition came through the head pipe, which does not tell whether this pipe accepted it: the application
+         * sends it itself before it feeds the pipe directly, and feeds only what was accepted */
+        n->def_unconfirmed = false;
+        int v = n->defv;
+        n->has_def = false;
+        if (!do_set_flow_def(c, n, v, "   [sent again before feeding the pipe directly]") || c->ret) return;
     }
     struct inspec s = { .seq = c->next_seq, .sz = sz, .fl = fl };
     const struct nspec *fsp = feed_spec(c, n);
@@ -1782,7 +1826,7 @@ static void op_input(struct ctx *c)
     upipe_input(n->upipe, in, NULL);
     if (n->idx == N_HEAD && n->out == 100 + N_MAIN) {      /* the head has passed its definition on */
         struct node *m = &c->n[N_MAIN];
-        m->has_def = true; m->defv = n->defv; m->w = n->w; m->h = n->h; m->nin += 1; m->fed = true;
+        m->has_def = true; m->defv = n->defv; m->w = n->w; m->h = n->h; m->nin += 1; m->fed = true; m->def_unconfirmed = true;
         if (m->pts < n->pts) m->pts = n->pts;
     }
     /* strict check for pipes documented one-to-one and synchronous: this very buffer must now be at the output */
@@ -2012,7 +2056,7 @@ static int run_once(const uint8_t *tp_, size_t len, struct vp_report *rep, unsig
     if (cfg.pool_depth) c->classes |= 1u << CL_POOL;
     c->hash = vp_hash_mix(c->hash, cfgb);
     for (int i = 0; i < NTAP; i++) for (int k = 0; k < NNODE; k++) last_seq[i][k] = UINT64_MAX;
-    fake_upump_sleep(c->pfx.loop, 10 * TICK);      /* the clock does not start at zero */
+    fake_upump_sleep(c->pfx.loop, 3600 * (uint64_t)UCLOCK_FREQ + 10 * TICK);      /* the clock starts an hour after its epoch: real system clocks are never within the first second, and date arithmetic such as "pts - one second" (videocont, audiocont) assumes so */
 
     uint8_t typeb = tp_u8(&c->t);
     int type = (typeb * 11) & 31;                  /* stable decoding: adding a type at the end of the table does not change existing tapes */
@@ -2021,6 +2065,9 @@ static int run_once(const uint8_t *tp_, size_t len, struct vp_report *rep, unsig
     if (type == 31 && (shape & 0x80)) type = 32;
     /* second bank: configuration bytes c0..ff (the configuration itself is decoded from the whole byte as before) */
     if ((cfgb >> 6) == 3) { type = (typeb * 11) & 15; if (type >= ntypes - BANK1) type %= ntypes - BANK1; type += BANK1; }
+    { static int forced = -2;          /* debugging aid: WIDE_TYPE=<name> drives one type only */
+      if (forced == -2) { forced = -1; const char *w = getenv("WIDE_TYPE"); if (w) for (int i = 0; i < ntypes; i++) if (!strcmp(table[i].main.name, w)) forced = i; }
+      if (forced >= 0) type = forced; }
     R(PID " wide: pool_depth=%d prepend=%d align=%d type=%s\n", cfg.pool_depth, cfg.prepend, cfg.align, table[type].main.name);
     c->hash = vp_hash_mix(vp_hash_mix(c->hash, type), shape * 256 + hint);
     stats[type].cases++;
@@ -2062,6 +2109,19 @@ static int run_once(const uint8_t *tp_, size_t len, struct vp_report *rep, unsig
         int want = ps % 4;
         if (!m->sp->has_in || !m->sp->has_out) want = 1 + ps % 3;
         for (int k = 0; k < want && !c->ret; k++) do_sub(c, k, (ps >> 2) * (k + 1));
+        /* pipes that pick input buffers by date against a reference flow: in half of the cases the first input is defined and
+         * selected and the reference flow defined up front, so that the 40 operations are spent on data and changes */
+        struct node *s0 = &c->n[N_SUB0];
+        if ((m->sp->flags & F_PTSMATCH) && want >= 1 && (ps & 0x80) && !c->ret && node_alive(c, s0) && s0->held && s0->sp->ctl) {
+            if (do_set_flow_def(c, s0, 0, "   [prelude]") && !c->ret) {
+                char what[128] = "", w2[192];
+                s0->sp->ctl(c, s0, 0, what, sizeof what);
+                snprintf(w2, sizeof w2, "%s.%s   [prelude]", node_name(c, s0), what);
+                R("  %s\n", w2);
+                end_op(c, w2);
+                if (!c->ret && node_alive(c, m)) do_set_flow_def(c, m, 0, "   [prelude]");
+            }
+        }
     }
 
     int nops = 0;
